@@ -443,7 +443,7 @@ def number_to_string(number, significant_digits, number_format_notation="f"):
     else:
         number = round(number=number, ndigits=significant_digits)  # type: ignore
 
-        if significant_digits == 0:
+        if significant_digits == 0 and number == number and number not in (float('inf'), float('-inf')):
             number = int(number)
 
     if number == 0.0:
